@@ -31,6 +31,8 @@ inductive Cond
   | header (name value : Bytes)
   /-- `cookie.Filter {"name","value"}` (`""` value = any value) -/
   | cookie (name value : Bytes)
+  /-- `port.Filter {"port"}` (no else branch) -/
+  | port (p : Int)
   deriving DecidableEq, Repr
 
 structure Message where
@@ -153,8 +155,25 @@ def urlMatches (m : Message) (scheme host path query : Bytes) : Bool :=
   else if !query.isEmpty && query != m.rawQuery then false
   else true
 
+/-! ### `port.Filter` (after `repo-patches/C12-fix-port-filter-response.patch`: both sides decide alike) -/
+
+/-- `defaultPort` of `port.Filter.Modify*`: 80 for `http`, 443 for `https`, else the zero value. -/
+def defaultPort (scheme : Bytes) : Int :=
+  if scheme == strBytes "http" then 80 else if scheme == strBytes "https" then 443 else 0
+
+/-- the text after the last `:` of `URL.Host`, when there is a `:` (`net.SplitHostPort` on `host:port`) -/
+def explicitPort (host : Bytes) : Option Bytes :=
+  if host.contains 58 then some (host.reverse.takeWhile (· != 58)).reverse else none
+
+/-- The request URL's port — explicit, else the scheme's default — equals the filter's.
+(Hosts whose port is not a decimal number are outside the domain: the real filter returns an error.) -/
+def portMatches (m : Message) (p : Int) : Bool :=
+  match explicitPort m.host with
+  | none => p == defaultPort m.scheme
+  | some ps => atoi ps == some p
+
 /-- `Match{Request,Response}` of the matcher a filter's JSON body builds, on the message of kind `k`
-of the exchange `m`. Method, URL and query conditions read the request of the exchange for both kinds;
+of the exchange `m`. Method, URL, query and port conditions read the request of the exchange for both kinds;
 header and cookie conditions read the message itself. -/
 def holds (c : Cond) (k : Kind) (m : Message) : Bool :=
   match c with
@@ -167,6 +186,7 @@ def holds (c : Cond) (k : Kind) (m : Message) : Bool :=
     | none => false
     | some vs => vs.any (· == v)
   | .cookie n v => (m.cookies k).any fun c => n == c.1 && (v.isEmpty || v == c.2)
+  | .port p => portMatches m p
 
 /-- The valuation of the conditions that a concrete exchange induces for its message of kind `k`. -/
 def Message.val (m : Message) (k : Kind) : Cond → Bool := fun c => holds c k m
